@@ -151,6 +151,62 @@ def rg_json_text(model):
     return '\n'.join(out) + '\n'
 
 
+
+def rg_json_text_multiline(model, rng):
+    """rg --json --multiline.  `model` is changed in place where a match is made to run across a line end or an empty last
+    line is added to a record: it keeps one entry per line of the file - that is what has to be shown."""
+    # rg --json --multiline: consecutive matching lines of a file reported in one record (text with line breaks inside,
+    # one line number, submatch offsets counted over the whole text - a match may run across a line end).  The model keeps
+    # one entry per line of the file: that is what has to be shown.
+    import json
+    out = []
+    for fi, (p, hits) in enumerate(model):
+        out.append(json.dumps({'type': 'begin', 'data': {'path': {'text': p}}}))
+        i = 0
+        while i < len(hits):
+            grp = [i]
+            while (grp[-1] + 1 < len(hits) and hits[grp[-1] + 1][1] == 'match' and hits[grp[-1]][1] == 'match'
+                   and hits[grp[-1] + 1][0] == hits[grp[-1]][0] + 1 and len(grp) < 3 and rng.random() < 0.8):
+                grp.append(grp[-1] + 1)
+            last = grp[-1]
+            if rng.random() < 0.3 and hits[last][1] == 'match' and (last + 1 >= len(hits) or hits[last + 1][0] > hits[last][0] + 1):
+                # the record ends with an empty matched line (a pattern that ends in '\n\n'): a line of the file like the others
+                hits.insert(last + 1, (hits[last][0] + 1, 'match', '', []))
+                grp.append(last + 1)
+            crlf = len(grp) > 1 and rng.random() < 0.2
+            eol = '\r\n' if crlf else '\n'
+            text = ''
+            subs = []
+            for gi, k in enumerate(grp):
+                ln, kind, code, sb = hits[k]
+                off = len(text.encode('utf-8'))
+                sb = list(sb)
+                if gi > 0 and subs and hits[grp[gi - 1]][3] and rng.random() < 0.4:
+                    # the previous match runs on across the line end into this line
+                    prev_ln, prev_kind, prev_code, prev_sb = hits[grp[gi - 1]]
+                    plen = len(prev_code.encode('utf-8'))
+                    b = code.encode('utf-8')
+                    cut = next((n for n in range(1, len(b) + 1) if (n == len(b) or (b[n] & 0xC0) != 0x80)), len(b)) if b else 0
+                    s0 = subs[-1][0]
+                    subs[-1] = (s0, off + cut)
+                    hits[grp[gi - 1]] = (prev_ln, prev_kind, prev_code, list(prev_sb[:-1]) + [(prev_sb[-1][0], plen)])
+                    sb = [(0, cut)] + [(a, z) for a, z in sb if a >= cut]
+                    hits[k] = (ln, kind, code, sb)
+                    subs += [(off + a, off + z) for a, z in sb[1:]]
+                else:
+                    subs += [(off + a, off + z) for a, z in sb]
+                text += code + eol
+            ln0, kind0 = hits[grp[0]][0], hits[grp[0]][1]
+            tb = text.encode('utf-8')
+            out.append(json.dumps({'type': kind0, 'data': {'path': {'text': p}, 'lines': {'text': text}, 'line_number': ln0, 'absolute_offset': ln0 * 10,
+                                                           'submatches': [{'match': {'text': tb[a:z].decode('utf-8', 'replace')}, 'start': a, 'end': z} for a, z in subs]}}))
+            i = grp[-1] + 1
+        out.append(json.dumps({'type': 'end', 'data': {'path': {'text': p}, 'binary_offset': None, 'stats': {'elapsed': {'secs': 0, 'nanos': 1, 'human': '0s'},
+                                                                                                           'searches': 1, 'searches_with_match': 1, 'bytes_searched': 10,
+                                                                                                           'bytes_printed': 10, 'matched_lines': 1, 'matches': 1}}}))
+    return '\n'.join(out) + '\n'
+
+
 def rng_false():
     return False
 
@@ -179,7 +235,7 @@ def diffstat_lines(rng, paths):
 
 # ---------------------------------------------------------------- combined diffs / merge conflicts
 
-def gen_combined(rng, conflict=False, nparents=2, nhunks=1, nconflicts=1, styles=('diff3',), lead=None, unterminated=False, note=False):
+def gen_combined(rng, conflict=False, nparents=2, nhunks=1, nconflicts=1, styles=('diff3',), lead=None, unterminated=False, note=False, short_lines=False):
     """A 'diff --cc' section.  Returns (lines, model) where model is a list of
     ('line', prefix, text) / ('conflict', ours_lines, ancestral_lines, theirs_lines)."""
     path = gen.rand_path(rng, simple=True)
@@ -198,7 +254,7 @@ def gen_combined(rng, conflict=False, nparents=2, nhunks=1, nconflicts=1, styles
         for _ in range(rng.randint(1, 5)):
             p = rng.choice(prefixes)
             t = gen.rand_text(rng, 40, allow_empty=False, tabs_ok=False)
-            while t.startswith(('=======', '<<<<<<<', '>>>>>>>', '|||||||')):
+            while t.startswith(('=======', '<<<<<<<', '>>>>>>>', '|||||||')) or (short_lines and not t.strip()):
                 t = gen.rand_text(rng, 40, allow_empty=False, tabs_ok=False)
             hb.append(p + t)
             model.append(('line', p, t))
@@ -209,10 +265,15 @@ def gen_combined(rng, conflict=False, nparents=2, nhunks=1, nconflicts=1, styles
     for _ in range(n):
         p = rng.choice(prefixes)
         t = gen.rand_text(rng, 40, allow_empty=False, tabs_ok=False)
-        while t.startswith(('=======', '<<<<<<<', '>>>>>>>', '|||||||')):
+        while t.startswith(('=======', '<<<<<<<', '>>>>>>>', '|||||||')) or (short_lines and not t.strip()):
             t = gen.rand_text(rng, 40, allow_empty=False, tabs_ok=False)   # would read as a conflict marker
         body.append(p + t)
         model.append(('line', p, t))
+    if short_lines and len(body) >= 2:
+        # lines shorter than the marker columns (an unchanged empty line whose blanks were stripped on the way): not in the
+        # model - they show as empty rows - but the lines after them are still the lines they were
+        for _ in range(rng.randint(1, 2)):
+            body.insert(rng.randrange(1, len(body)), rng.choice(['', '', ' '] if nparents >= 2 else ['']))
     if conflict:
         def side_text():
             # a side's content equal to a conflict marker is inherently ambiguous: not generated
@@ -220,7 +281,7 @@ def gen_combined(rng, conflict=False, nparents=2, nhunks=1, nconflicts=1, styles
                 t = gen.rand_text(rng, 30, allow_empty=False, tabs_ok=False)
                 if rng.random() < 0.05:
                     t = rng.choice(['==========', '======== x', '=========================='])     # (more than seven: content, e.g. a heading's underline)
-                if not t.startswith(('<<<<<<<', '>>>>>>>', '|||||||')) and not (t == '=======' or t.startswith('======= ')):
+                if not t.startswith(('<<<<<<<', '>>>>>>>', '|||||||')) and not (t == '=======' or t.startswith('======= ')) and not (short_lines and not t.strip()):
                     return t
         nreg = max(1, nconflicts)
         for _region in range(nreg):
@@ -257,7 +318,7 @@ def gen_combined(rng, conflict=False, nparents=2, nhunks=1, nconflicts=1, styles
             model.append(('conflict', ours, anc, theirs))
             for _ in range(rng.randint(0, 2)):
                 t = gen.rand_text(rng, 40, allow_empty=False, tabs_ok=False)
-                while t.startswith(('=======', '<<<<<<<', '>>>>>>>', '|||||||')):
+                while t.startswith(('=======', '<<<<<<<', '>>>>>>>', '|||||||')) or (short_lines and not t.strip()):
                     t = gen.rand_text(rng, 40, allow_empty=False, tabs_ok=False)
                 body.append('  ' + t)
                 model.append(('line', '  ', t))
